@@ -74,6 +74,12 @@ mod control;
 mod raw;
 mod util;
 
+/// Observation hooks for external verification tooling (`--cfg hashbrown_verif` only).
+#[cfg(hashbrown_verif)]
+pub mod verif {
+    pub use crate::raw::verif::*;
+}
+
 mod external_trait_impls;
 mod map;
 #[cfg(feature = "raw-entry")]
